@@ -319,6 +319,7 @@ fn dump(shell: Shell, input: &str) -> String {
     // every within-word regex compiled on its own, the way Inp::from_input does it
     // (from_regex = from_regex_raw + ambiguity check), before and after minimisation
     out.push_str(",\"subautomata\":[");
+    let mut interned: Vec<Option<DFA>> = Vec::new();
     for i in 0..hooks::regex_pool_len(&subword_regexes) {
         if i > 0 {
             out.push(',');
@@ -332,8 +333,29 @@ fn dump(shell: Shell, input: &str) -> String {
                 out.push_str(",\"min\":");
                 dump_dfa(&mut out, &min, false);
                 out.push('}');
+                interned.push(Some(min));
             }
-            Err(_) => out.push_str("null"),
+            Err(_) => {
+                out.push_str("null");
+                interned.push(None);
+            }
+        }
+    }
+    out.push(']');
+    // which of these does the compiler's own `==` (the relation DFAInternPool merges by) call equal
+    out.push_str(",\"subautomata_eq\":[");
+    let mut first = true;
+    for i in 0..interned.len() {
+        for j in (i + 1)..interned.len() {
+            if let (Some(a), Some(b)) = (&interned[i], &interned[j]) {
+                if a == b {
+                    if !first {
+                        out.push(',');
+                    }
+                    first = false;
+                    out.push_str(&format!("[{},{}]", i, j));
+                }
+            }
         }
     }
     out.push(']');
